@@ -10,7 +10,7 @@
 
 AST:  ("sym", name, flags) ("rat", p, q) ("add", [..]) ("mul", [..]) ("pow", b, n)
       ("app", head, [..]) ("idx", base, [..]) ("node", cls, [args], [attrs])
-      ("psum", body, [(sym, [(p, q), ..]), ..])
+      ("psum", body, [(sym, [value AST, ..]), ..])   -- pool values are terms (numbers, symbols, sums, ...)
 attrs: ("none",) ("cls", qualname) ("str", s) ("obj", repr)
 """
 
@@ -67,7 +67,7 @@ def show(t) -> str:  # noqa: C901, PLR0911
     if k == "node":
         return f"(node {hx(t[1])} ( {' '.join(map(show, t[2]))} ) ({' '.join(map(show_attr, t[3]))}))"
     if k == "psum":
-        bs = ["(bind " + " ".join([show_sym(s), *map(show_q, vals)]) + ")" for s, vals in t[2]]
+        bs = ["(bind " + " ".join([show_sym(s), *map(show, vals)]) + ")" for s, vals in t[2]]
         return "(" + " ".join(["psum", show(t[1]), *bs]) + ")"
     raise ValueError(t)
 
@@ -119,7 +119,7 @@ def read(x):  # noqa: C901, PLR0911
         attrs = [("none",) if a[0] == "none" else (a[0], unhx(a[1])) for a in x[3]]
         return ("node", unhx(x[1]), [read(e) for e in x[2]], attrs)
     if k == "psum":
-        return ("psum", read(x[1]), [(read_sym(b[1]), [(int(v[1]), int(v[2])) for v in b[2:]]) for b in x[2:]])
+        return ("psum", read(x[1]), [(read_sym(b[1]), [read(v) for v in b[2:]]) for b in x[2:]])
     raise ValueError(x)
 
 
@@ -231,12 +231,7 @@ def from_sympy(e, ctx: Ctx):  # noqa: C901, PLR0911, PLR0912
         for idx, vals in e.indices:
             if not isinstance(idx, sp.Symbol):
                 raise Unrepresentable(f"PoolSum index {idx!r} is not a symbol")
-            pool = []
-            for v in vals:
-                if not isinstance(v, sp.Rational):
-                    raise Unrepresentable(f"pool value {v!r} is not rational")
-                pool.append((int(v.p), int(v.q)))
-            binders.append((from_sympy(idx, ctx), pool))
+            binders.append((from_sympy(idx, ctx), [from_sympy(v, ctx) for v in vals]))
         return ("psum", from_sympy(e.expression, ctx), binders)
     if is_unevaluated_class(type(e)):
         cls = type(e)
@@ -308,7 +303,7 @@ def to_sympy(t, ctx: Ctx):  # noqa: C901, PLR0911, PLR0912
         return base[tuple(to_sympy(a, ctx) for a in t[2])]
     if k == "psum":
         body = to_sympy(t[1], ctx)
-        return PoolSum(body, *[(to_sympy(s, ctx), tuple(sp.Rational(p, q) for p, q in vals)) for s, vals in t[2]])
+        return PoolSum(body, *[(to_sympy(s, ctx), tuple(to_sympy(v, ctx) for v in vals)) for s, vals in t[2]])
     if k == "node":
         cls = ctx.classes[t[1]]
         args = iter(to_sympy(a, ctx) for a in t[2])
@@ -458,10 +453,12 @@ def evaluate(t, env: dict) -> Fraction:  # noqa: C901, PLR0911
     if k == "psum":
         total = Fraction(0)
         syms = [s for s, _ in t[2]]
-        for combi in itertools.product(*[vals for _, vals in t[2]]):
+        # the pool VALUES are evaluated in the environment of the pool sum itself (evalBinders)
+        pools = [[evaluate(v, env) for v in vals] for _, vals in t[2]]
+        for combi in itertools.product(*pools):
             env2 = dict(env)
-            for s, (p, q) in zip(syms, combi):
-                env2[s] = Fraction(p, q)
+            for s, q in zip(syms, combi):
+                env2[s] = q
             total += evaluate(t[1], env2)
         return total
     raise ValueError(t)
@@ -509,6 +506,8 @@ def symbols_of(t, acc=None) -> set:
             symbols_of(a, acc)
     elif k == "psum":
         symbols_of(t[1], acc)
-        for s, _ in t[2]:
+        for s, vals in t[2]:
             acc.add(s)
+            for v in vals:
+                symbols_of(v, acc)
     return acc
